@@ -89,34 +89,44 @@ impl<'b> MetaIter<'b> {
 // the identity of a nested-bucket entry is a function of its name and header (leaf_tag is the identity the lookups compare)
 pub uninterp spec fn bucket_tag(k: Seq<u8>, m: BucketMeta) -> int;
 #[verifier::external_body]
-proof fn axiom_bucket_tag<'a>(n: Bytes<'a>, m: BucketMeta)
-    ensures leaf_tag(Leaf::Bucket(n, m)) == bucket_tag(key_view(n), m),
+proof fn axiom_bucket_tag<'a>()
+    ensures forall|n: Bytes<'a>, m: BucketMeta| #[trigger] leaf_tag(Leaf::Bucket(n, m)) == bucket_tag(key_view(n), m),
 {
 }
 // the journal entries spill adds: one per collected header
 spec fn puts_of(s: Seq<(Seq<u8>, BucketMeta)>) -> Seq<(Seq<u8>, int)> {
     Seq::new(s.len(), |i: int| (s[i].0, bucket_tag(s[i].0, s[i].1)))
 }
-// `hs` names every open child exactly once and nothing else: as many names as open children, pairwise different, each the
-// name of an open child (the open children's names are pairwise different: axiom_entries_are_the_open_children)
+// `hs` names open children only, each at most once, and EVERY open child that has changes to write
 spec fn ent_has_key<'b>(ents: Seq<ChildEntry<'b>>, k: Seq<u8>) -> bool {
     exists|j: int| 0 <= j < ents.len() && (#[trigger] ents[j]).0 == k
 }
 #[verifier::opaque]
+spec fn hs_has_key(hs: Seq<(Seq<u8>, BucketMeta)>, k: Seq<u8>) -> bool {
+    exists|i: int| 0 <= i < hs.len() && (#[trigger] hs[i]).0 == k
+}
+// the child behind a handle has changes to write (its flag after the flags were propagated upwards by is_dirty)
+spec fn child_dirty<'b>(e: ChildEntry<'b>) -> bool { (*e.1).cur().dirty }
+#[verifier::opaque]
 spec fn same_keys<'b>(hs: Seq<(Seq<u8>, BucketMeta)>, ents: Seq<ChildEntry<'b>>) -> bool {
-    &&& hs.len() == ents.len()
     &&& forall|i: int, j: int| 0 <= i < j < hs.len() ==> (#[trigger] hs[i]).0 != (#[trigger] hs[j]).0
     &&& forall|i: int| 0 <= i < hs.len() ==> ent_has_key(ents, (#[trigger] hs[i]).0)
+    &&& forall|j: int| 0 <= j < ents.len() && child_dirty(#[trigger] ents[j]) ==> hs_has_key(hs, ents[j].0)
 }
 proof fn lemma_same_keys<'b>(hs: Seq<(Seq<u8>, BucketMeta)>, ents: Seq<ChildEntry<'b>>, hm: Map<Seq<u8>, BucketMeta>)
     requires
-        listing_of(hs, hm), hs.len() == ents.len(),
+        listing_of(hs, hm),
         forall|k: Seq<u8>| #[trigger] hm.contains_key(k) ==> ent_has_key(ents, k),
+        forall|j: int| 0 <= j < ents.len() && child_dirty(#[trigger] ents[j]) ==> hm.contains_key(ents[j].0),
     ensures same_keys(hs, ents),
 {
     reveal(same_keys);
     assert forall|i: int| 0 <= i < hs.len() implies ent_has_key(ents, (#[trigger] hs[i]).0) by {
         assert(hm.contains_key(hs[i].0));
+    }
+    assert forall|j: int| 0 <= j < ents.len() && child_dirty(#[trigger] ents[j]) implies hs_has_key(hs, ents[j].0) by {
+        reveal(hs_has_key);
+        assert(hm.contains_key(ents[j].0));
     }
 }
 // the allocator-side frame of the tree layer (same predicate the commit unit assumes of rebalance / spill)
